@@ -25,6 +25,7 @@ type gen struct {
 	inFunc   string // result type of the enclosing helper ("" in the entry function)
 	typeName string // the struct type, "" if none
 	funcs    []helper
+	deferEvs []string // events recorded by a deferred closure that modified the operand of a return statement
 	ntEvs    []string // events that, when executed, make the case non-trivial (placed right before a taken jump)
 	inHelper bool // generating the body of a declared helper function (call depth >= 2)
 	fa, fb, fc, fd string // field names of the struct type
@@ -614,6 +615,13 @@ func (g *gen) callStmt() string {
 		return g.record()
 	}
 	h := g.funcs[g.Pick(len(g.funcs), "call-which")]
+	if g.inHelper && strings.HasPrefix(h.kind, "recover-") && vrec.Known("F-C38-3") {
+		// known finding: recovery depends on the call depth of the recovering function;
+		// it is only called from the entry function (depth 2) while the finding is open
+		vrec.Excluded("F-C38-3")
+		g.Tag("avoided:F-C38-3")
+		return g.record()
+	}
 	var args []string
 	for _, p := range h.params {
 		args = append(args, g.argOf(p))
@@ -721,6 +729,92 @@ func (g *gen) helperFunc() {
 	}
 }
 
+// deferReturnFunc: a declared function with an UNNAMED result whose return operand is a
+// bare variable, parameter, element or field, and deferred closures that assign to that
+// same storage (and to other locals) after the return operand was evaluated. Go copies
+// the operand into the result before the deferred functions run; only what is reachable
+// through a returned slice stays shared. No panic is involved (that is F-C38-2's domain).
+func (g *gen) deferReturnFunc() {
+	name := g.Top("h")
+	saved := g.SaveScopes()
+	savedLoop, savedNest := g.inLoop, g.nesting
+	g.inLoop, g.nesting = 0, 0
+	g.inHelper = true
+	defer func() {
+		g.inLoop, g.nesting = savedLoop, savedNest
+		g.inHelper = false
+		g.RestoreScopes(saved)
+	}()
+	hasT := g.typeName != ""
+	// locals of every kind of the subset
+	body := fmt.Sprintf("x := a*%d + %d\nt := s + %s\ny := float64(a) + %s\nq := []int{a, %d, 3}\n",
+		g.Int(-2, 4, "dr-k"), g.Int(-5, 9, "dr-c"), g.OneOf("dr-s", `"k"`, `""`, `"é"`), g.OneOf("dr-f", "0.5", "2.0", "-1.25"), g.Int(0, 9, "dr-q"))
+	g.Declare(progen.Var{Name: "a", Type: "int"})
+	g.Declare(progen.Var{Name: "s", Type: "string"})
+	g.Declare(progen.Var{Name: "x", Type: "int"})
+	g.Declare(progen.Var{Name: "t", Type: "string"})
+	g.Declare(progen.Var{Name: "y", Type: "float64"})
+	g.Declare(progen.Var{Name: "q", Type: "[]int"})
+	use := "_, _, _, _ = x, t, y, q\n"
+	if hasT {
+		body += fmt.Sprintf("p := %s{a, s, 1.5, []int{a, 2}}\n_ = p\n", g.typeName)
+		g.Declare(progen.Var{Name: "p", Type: g.typeName})
+	}
+	body += use
+	// the operand of the return statement
+	type operand struct{ expr, typ, modify, kind string }
+	ops := []operand{
+		{"x", "int", "x = x*2 + 1\n", "local"},
+		{"a", "int", "a += 7\n", "param"},
+		{"q[0]", "int", "q[0] = q[0] + 50\n", "element"},
+		{"t", "string", "t += \"!\"\n", "local"},
+		{"s", "string", "s = s + s + \"?\"\n", "param"},
+		{"y", "float64", "y = y*2.0 + 1.5\n", "local"},
+		{"q", "[]int", "q[1] = q[1] - 9\nq = append(q, 4)\n", "slice"},
+		{"(x + 0)", "int", "x = x - 11\n", "expression(control)"},
+	}
+	if hasT {
+		ops = append(ops,
+			operand{"p." + g.fa, "int", "p." + g.fa + " += 30\n", "field"},
+			operand{"p." + g.fb, "string", "p." + g.fb + " += \"#\"\n", "field"},
+			operand{"p", g.typeName, "p." + g.fa + " = p." + g.fa + "*3 + 1\np." + g.fc + " = 9.5\n", "struct"})
+	}
+	op := ops[g.Pick(len(ops), "dr-operand")]
+	g.Tag("defer-modifies-returned-operand:" + op.kind)
+	ndefer := g.Int(1, 2, "dr-ndefer")
+	which := g.Pick(ndefer, "dr-which") // the defer that modifies the operand
+	mid := ""
+	for i := 0; i < ndefer; i++ {
+		d := ""
+		if g.Chance(1, 3, "dr-recover") {
+			d += "recover()\n" // no panic is in flight: returns nil
+		}
+		if i == which {
+			d += op.modify
+		}
+		// and other variables
+		for k := g.Int(0, 2, "dr-others"); k > 0; k-- {
+			d += g.OneOf("dr-other", "x += 3\n", "t = t + \"~\"\n", "y -= 0.5\n", "q[2] = q[2] * 2\n", "a--\n")
+		}
+		ev := g.Ev()
+		if i == which {
+			g.deferEvs = append(g.deferEvs, fmt.Sprint(ev))
+		}
+		d += fmt.Sprintf("rec.E(%d, x, t, y)\n", ev)
+		mid += "defer func() {\n" + progen.Indent(d) + "}()\n"
+		if i == 0 && g.Bool("dr-between") {
+			mid += g.stmts(g.Int(1, 2, "dr-n"))
+		}
+	}
+	if g.Bool("dr-loop") {
+		i := g.Local("i")
+		mid += fmt.Sprintf("for %s := 1; %s <= %d; %s++ {\n\tx += %s\n\tq[1] += %s\n}\n", i, i, g.Int(1, 4, "dr-loop-n"), i, i, i)
+	}
+	body += mid + fmt.Sprintf("rec.E(%d, x, t, y, q)\nreturn %s\n", g.Ev(), op.expr)
+	g.Decls = append(g.Decls, fmt.Sprintf("func %s(a int, s string) %s {\n%s}", name, op.typ, progen.Indent(body)))
+	g.funcs = append(g.funcs, helper{name, []string{"int", "string"}, op.typ, "defer-after-return"})
+}
+
 // recoverFunc: a declared function that recovers its own panic; called from the entry
 // function only. With results: Go returns the current values of the (named) results,
 // as modified by deferred closures.
@@ -763,6 +857,11 @@ func Generate(t *rapid.T, px string) gobatch.Program {
 	if g.Chance(1, 3, "recover-func") {
 		g.recoverFunc()
 	}
+	var drFuncs []helper
+	for n := g.Int(0, 2, "defer-return-funcs"); n > 0; n-- {
+		g.deferReturnFunc()
+		drFuncs = append(drFuncs, g.funcs[len(g.funcs)-1])
+	}
 	entry := g.Top("main")
 	g.Declare(progen.Var{Name: "x", Type: "int"})
 	g.Declare(progen.Var{Name: "y", Type: "float64"})
@@ -773,11 +872,14 @@ func Generate(t *rapid.T, px string) gobatch.Program {
 		_ = f
 		body += g.callStmt()
 	}
+	for _, f := range drFuncs {
+		body += fmt.Sprintf("rec.E(%d, %s(%s, %s))\n", g.Ev(), f.name, g.IntExpr(1), g.StrExpr(1))
+	}
 	body += fmt.Sprintf("rec.E(%d, x, y, s)\n", g.Ev())
 	g.Decls = append(g.Decls, fmt.Sprintf("func %s() {\n%s}", entry, progen.Indent(body)))
 	for i, d := range g.Decls {
 		g.Decls[i] = strings.ReplaceAll(d, "(--", "(- -") // unary minus of a negative literal is not a decrement
 	}
 	return gobatch.Program{Decls: g.Decls, Entry: entry, Tags: g.TagList(), Interp: "classic",
-		Meta: map[string]string{"nt-events": strings.Join(g.ntEvs, ",")}}
+		Meta: map[string]string{"nt-events": strings.Join(g.ntEvs, ","), "defer-events": strings.Join(g.deferEvs, ",")}}
 }
